@@ -14,7 +14,8 @@ from tagblock_common import hx, with_checksum, ais_line, multi_lines  # noqa: E4
 GEN = []
 RULE = ('sequences of single-fragment AIS sentences, each with no tag block, a tag block without group, a group of one, '
         'or a group triple written in varying surroundings (alone, between other fields, after an overridden or before a '
-        'malformed g field, leading zeros, wrong tag block checksum).  Exhaustive part: ALL interleavings that keep each '
+        'malformed g field, leading zeros, wrong tag block checksum, a non-UTF-8 byte in ANOTHER field of the tag block); now and '
+        'then some sentences are $PGHP wrapper sentences, or all members of a group carry the same AIS body.  Exhaustive part: ALL interleavings that keep each '
         "group's first sentence before its others, of configurations of up to 3 groups of sizes 1..3 plus ungrouped "
         'sentences (quick: a fixed list of configurations; thorough and hunt: every configuration).  Random part: up to 6 '
         'groups of sizes 1..6 plus ungrouped sentences, with group ids used again after completion.  Boundary part '
@@ -31,7 +32,18 @@ TRUSTED_EXTRA = ['coq/Prim/PyText.v text primitives (see C16)']
 # ------------------------------------------------------------------ tag block texts
 def group_tb(rng, n, t, g, plain=False):
     core = f'g:{n}-{t}-{g}'
-    style = 'plain' if plain else rng.choice(['plain', 'plain', 'between', 'override', 'bad-after', 'zeros', 'blank', 'wrong-cs'])
+    style = 'plain' if plain else rng.choice(['plain', 'plain', 'between', 'override', 'bad-after', 'zeros', 'blank', 'wrong-cs',
+                                              'non-utf8-neighbour'])
+    if style == 'non-utf8-neighbour':
+        # another field of the same tag block is not UTF-8 (Latin-1 station name): that FIELD is skipped, the group stays
+        pre = rng.choice([b's:r\xe9x,', b'd:\xff\xfe,', b'\x80,'])
+        post = rng.choice([b'', b',t:caf\xe9', b',i:\xc3'])
+        if not pre + post:
+            pre = b's:\xe9,'
+        if rng.random() < 0.5:
+            pre = b''
+            post = post or b',s:\xe9'
+        return with_checksum(pre + core.encode() + post)
     if style == 'between':
         core = f's:st{rng.randrange(99)},{core},c:{rng.randrange(10 ** 9)}'
     elif style == 'override':
@@ -53,6 +65,8 @@ def ungrouped_tb(rng, kind=None):
     kind = kind or rng.choice(['none', 'none', 'no-g', 'single', 'single-n5', 'bad-g'])
     if kind == 'none':
         return None, None
+    if kind == 'no-g' and rng.random() < 0.2:
+        return with_checksum(b's:r\xe9x,c:1'), None
     if kind == 'no-g':
         return with_checksum(f's:rx{rng.randrange(99)},c:{rng.randrange(10 ** 9)}'.encode()), None
     if kind == 'single':
@@ -84,6 +98,15 @@ def mk_items(rng, specs):
         else:
             tb, grp = sp[1], sp[2]
         items.append(Item(grp, tb, bare))
+    # now and then some of the sentences are Gatehouse wrapper sentences ($PGHP): sentences like any other for the tag
+    # block queue (grouped or not), although the readers never turn them into messages
+    if rng.random() < 0.2:
+        for k, it in enumerate(items):
+            if rng.random() < 0.35:
+                body = b'PGHP,1,%d,%d,%d,23,59,%d,%d,219,,2190047,1,%02X' % (2000 + k % 30, 1 + k % 12, 1 + k % 28, rng.randrange(60),
+                                                                             rng.randrange(1000), rng.randrange(256))
+                it.bare = b'$' + with_checksum(body)
+                it.line = it.bare if it.tb is None else b'\\' + it.tb + b'\\' + it.bare
     # now and then all members of a group carry the SAME AIS sentence (one message relayed by several receivers): the tag
     # blocks differ, the sentence bodies are equal (and compare equal: NMEASentence.__eq__ looks at the AIS fields only)
     if rng.random() < 0.25:
@@ -335,7 +358,7 @@ def check_batch(ctx, batch, kind, readers=False):
             for comp, k2, text in oracle(grps, wf, want, st):
                 rep.violation({'entry': name, 'component': comp, 'kind': k2}, f'{name}: {text}',
                               {'tbs': [tb_tok(items[k].tb) for k in order], 'grps': [grp_tok(g) for g in grps],
-                               'entry': name})
+                               'bares': [items[k].bare.hex() for k in order], 'entry': name})
         if i % 1499 == 0:
             rep.sample({'kind': kind, 'tag_blocks': [None if items[k].tb is None else items[k].tb.decode('latin-1') for k in order],
                         'delivered_per_arrival': steps})
@@ -697,7 +720,8 @@ def replay(ctx, data):
     items = []
     for k, (tb, g) in enumerate(zip(data['tbs'], data['grps'])):
         grp = None if g == 'None' else tuple(int(x) for x in g.split(','))
-        items.append(Item(grp, None if tb == 'None' else (b'' if tb == '-' else bytes.fromhex(tb)), ais_line(ctx.rng, k)))
+        bare = bytes.fromhex(data['bares'][k]) if data.get('bares') else ais_line(ctx.rng, k)
+        items.append(Item(grp, None if tb == 'None' else (b'' if tb == '-' else bytes.fromhex(tb)), bare))
     try:
         check_batch(c, [(items, tuple(range(len(items))))], 'replay', readers=data.get('entry') in ('IterMessages', 'NMEAQueue'))
     finally:
